@@ -275,7 +275,16 @@ class SysWorld:
         else:
             self.dw.apply(op)
         quiet = self.net.pump(self.mode, self.frag)
-        return self.snapshot(op, quiet)
+        rec = self.snapshot(op, quiet)
+        # (re-)enabling a property republishes it: definition AND current values.  Under global send order a client that
+        # enabled BLOBs must then hold the BLOB again (the definition alone carries no payload)
+        strict = []
+        if self.mode == "fifo" and o in ("ven", "gen") and op.get("b"):
+            for vi, vv in enumerate(self.dep["vecs"], start=1):
+                if vv["kind"] == "blob" and ((o == "ven" and vi == op["v"]) or (o == "gen" and vv["grp"] == op["g"])):
+                    strict.append([vv["dev"], vv["name"]])
+        rec["strict"] = strict
+        return rec
 
     def close(self):
         self.dw.close()
@@ -410,6 +419,7 @@ def c08_runs(r, tier: str) -> List[List[dict]]:
 def slim(ev: dict) -> dict:
     keep = {k: ev[k] for k in ("o", "quiet", "mode", "truth", "views", "errors")}
     keep["target"] = ev.get("target", [NONE, NONE])
+    keep["strict"] = ev.get("strict", [])
     keep["vals"] = ev.get("vals", [])
     keep["len"] = ev.get("len", 0)
     keep["up"] = 1 if ev["o"] == "client-write" else 0
